@@ -39,7 +39,15 @@ JOB_TIMEOUT = 300
 OTHER_NAMES = ['Bybit USDT Perpetual', 'Binance Spot', 'Binance Perpetual Futures']
 
 
-def _probe_spec(rng, klass, quiet=False):
+def job_env(job):
+    # every interpreter has its own string-hash salt unless told otherwise: the reference runs and the runs after a history
+    # get different ones (a result that depends on the iteration order of a set of strings differs between processes)
+    if job.get('kind') == 'history':
+        return {'PYTHONHASHSEED': str(1 + job.get('_salt', 0) % 7)}
+    return {'PYTHONHASHSEED': '0'}
+
+
+def _probe_spec(rng, klass, quiet=False, busy2=False):
     spot = klass == 'spot'
     cfg = {'starting_balance': 10000, 'fee': 0.001, 'type': 'spot' if spot else 'futures'}
     if not spot:
@@ -47,10 +55,18 @@ def _probe_spec(rng, klass, quiet=False):
     spec = specgen.random_session(rng, minutes=rng.choice([300, 420]), exch_type=cfg['type'], nsym=rng.choice([1, 1, 2]),
                                   tfs=['1m', '5m', '15m'], data_tfs=['15m', '1h'], warmup=rng.choice([240, 240, 0]),
                                   fast=rng.random() < 0.4)
+    if busy2:
+        # two pairs on one wallet in the fast simulator, both trading all the time with tight exits on 15m candles: fills of
+        # both pairs fall into the same chunk, and each pair's callbacks see the wallet the other one has just changed
+        spec = specgen.random_session(rng, minutes=420, exch_type=cfg['type'], nsym=2, tfs=['15m'], data_tfs=['1h'],
+                                      warmup=240, fast=True)
+        spec['fast'] = True
     spec['config'] = cfg
     for r in spec['routes']:
         sc = r['script']
-        sc.update(p_enter=0.3, observe='digest', use_shared=True, use_indicator=230, sl=sc['sl'] or 0.01, tp=sc['tp'] or 0.01)
+        if busy2:
+            sc.update(sl=0.003, tp=0.003, entry='market')
+        sc.update(p_enter=0.3 if not busy2 else 0.7, observe='digest', use_shared=True, use_indicator=230, sl=sc['sl'] or 0.01, tp=sc['tp'] or 0.01)
         # the probe also asks for candles of pairs / timeframes it does not route (earlier calls of a history do route them)
         sc['read_foreign'] = [['ETH-USDT', '1m'], ['SOL-USDT', '1m'], ['ETH-USDT', '3m'], ['SOL-USDT', '30m'], ['SOL-USDT', '3m'],
                               ['ETH-USDT', '30m'], ['BTC-USDT', '2h'], ['ETH-USDT', '2h'], ['SOL-USDT', '2h']]
@@ -156,10 +172,19 @@ def _history(rng, probe, n, first_dim=None):
     return hist, sorted(dims)
 
 
-def _ser_events(events):
+OBSERVABLE = ('hook', 'submit', 'reject', 'exec_call', 'exec_ret', 'exec_raise', 'cancel_call', 'cancel_ret', 'trade_closed', 'daily')
+
+
+def _ser_events(events, observable_only=False):
     out = []
     started = False
     for e in events:
+        if observable_only and e['k'] not in OBSERVABLE:
+            # (the order in which the store is filled timeframe by timeframe follows the iteration order of a set of strings;
+            # runs in processes with different hash salts are compared on what a caller or a strategy can observe)
+            if e['k'] == 'daily':
+                started = True
+            continue
         if e['k'] == 'daily':
             started = True
         e = {k: v for k, v in e.items() if k not in ('msg',)}
@@ -326,6 +351,7 @@ def _run_job(job):
         info['aborted_earlier'] = aborted
     out, prepared = _run(probe, held, 'probe', prepared)
     info['events'] = _ser_events(out['events'])
+    info['events_obs'] = _ser_events(out['events'], observable_only=True)
     info['result'] = _result_digest(out['result'])
     info['error'] = out['error'] and out['error']['type'] + ':' + out['error']['msg'][:120]
     info['trades'] = (out['result'] or {}).get('metrics', {}).get('total', 0) if out['result'] else 0
@@ -378,9 +404,9 @@ def finalize(jobs, results, tier):
         sigs.append(repr((job['klass'], tuple(job['dims']), f['trades'] > 0)))
         if f['trades'] == 0 and 'options' in job['dims']:
             cnt['quiet_probe_after_calls_with_report_options'] = cnt.get('quiet_probe_after_calls_with_report_options', 0) + 1
-        if f['result'] == h['result'] and f['events'] == h['events'] and f['error'] == h['error']:
+        if f['result'] == h['result'] and f['events_obs'] == h['events_obs'] and f['error'] == h['error']:
             continue
-        a, b = f['events'], h['events']
+        a, b = f['events_obs'], h['events_obs']
         i = next((i for i in range(min(len(a), len(b))) if a[i] != b[i]), min(len(a), len(b)))
         ea = json.loads(a[i]) if i < len(a) and a[i].endswith('}') else (a[i] if i < len(a) else None)
         eb = json.loads(b[i]) if i < len(b) and b[i].endswith('}') else (b[i] if i < len(b) else None)
@@ -416,7 +442,7 @@ def _classify(job, f, h, ea, eb):
             return 'stale_config_memo:exchange'
     if any(x['config'] != probe['config'] and x.get('exchange', 'Sandbox') == pname for x in job['history']):
         return 'stale_config_memo:exchange'
-    if f['events'] == h['events'] and f['error'] == h['error']:
+    if f['events_obs'] == h['events_obs'] and f['error'] == h['error']:
         return 'probe_result_differs_after_history'
     return 'probe_differs_after_history'
 
@@ -428,7 +454,8 @@ def make_jobs(tier, seed):
     for p in range(nprobes):
         klass = 'spot' if p % 3 == 2 else 'futures'
         quiet = p % 6 == 4
-        probe = _probe_spec(rng, klass, quiet)
+        busy2 = p % 6 == 1
+        probe = _probe_spec(rng, klass, quiet, busy2)
         if quiet:
             probe.pop('options', None)
         then, _ = _history(rng, probe, 1)
@@ -438,6 +465,6 @@ def make_jobs(tier, seed):
             if quiet and hcount in (0, 3):
                 first_dim = 'options'
             hist, dims = _history(rng, probe, rng.choice([1, 1, 2, 3, 4]), first_dim)
-            jobs.append({'kind': 'history', 'pid': p, 'klass': klass, 'probe': probe, 'history': hist, 'dims': dims,
+            jobs.append({'kind': 'history', 'pid': p, 'klass': klass, 'probe': probe, 'history': hist, 'dims': dims, '_salt': len(jobs),
                          'reuse_at': rng.choice([None, 0, 0, len(hist) - 1])})
     return jobs
